@@ -5,6 +5,7 @@
  * Get == value; second/third run with PROT_NONE pages right after the last / before the first word
  * overlapping the range. Signed helpers: every representable sign-magnitude value of the alphabet. */
 #include "vh.h"
+#include <sys/mman.h>
 
 #include "varintBitstream.h" /* default instance: 64-bit words */
 
@@ -59,6 +60,114 @@ static size_t value_alphabet(size_t w, uint64_t *vals) {
 }
 
 static char desc[256];
+
+/* ---------------------------------------------------------------- far offsets
+ * The offset argument is a size_t: a stream may be longer than 2^31, 2^32 ... bits.  The stream is a lazily committed
+ * (MAP_NORESERVE) mapping of 4 GiB; before each call NO page of it is resident except the pages of the window around
+ * the addressed words, so after the call (a) the window must equal the model, written and read independently of the
+ * library, and (b) mincore() must show that no other page of the whole stream was accessed (read or written). */
+#define FAR_MAP ((size_t)4 << 30) + (1 << 16)
+static void far_section(void) {
+    if (!vh_section_begin("far-offsets")) {
+        return;
+    }
+    size_t maplen = FAR_MAP;
+    uint8_t *map = mmap(NULL, maplen, PROT_READ | PROT_WRITE, MAP_PRIVATE | MAP_ANONYMOUS | MAP_NORESERVE, -1, 0);
+    if (map == MAP_FAILED) {
+        vh_flag("far_offsets_mapped", 0);
+        return;
+    }
+    vh_flag("far_offsets_mapped", 1);
+    madvise(map, maplen, MADV_NOHUGEPAGE);
+    size_t npages = maplen / 4096;
+    unsigned char *vec = malloc(npages);
+    static const int EXPS[5] = {31, 32, 33, 34, 35};
+    static const long DELTAS[12] = {-129, -65, -64, -33, -1, 0, 1, 31, 37, 63, 64, 4096 * 8 + 5};
+    static const size_t WIDTHS[10] = {1, 7, 8, 16, 31, 32, 33, 40, 63, 64};
+    for (int ii = 0; ii < 2; ii++) {
+        const binst *I = &INST[ii];
+        size_t W = (size_t)I->W, WB = W / 8;
+        for (int ei = 0; ei < 5; ei++) {
+            for (int di = 0; di < 12; di++) {
+                for (int wi = 0; wi < 10; wi++) {
+                    size_t w = WIDTHS[wi];
+                    if (w > W) {
+                        continue;
+                    }
+                    if (!vh_case()) {
+                        continue;
+                    }
+                    size_t off = ((size_t)1 << EXPS[ei]) + (size_t)DELTAS[di];
+                    size_t firstw = off / W, lastw = (off + w - 1) / W;
+                    size_t wlo = (firstw - 1) * WB, whi = (lastw + 2) * WB; /* window: one pad word each side */
+                    if (whi > maplen) {
+                        continue;
+                    }
+                    uint64_t mask = w == 64 ? UINT64_MAX : ((1ULL << w) - 1);
+                    uint64_t vv[3] = {mask, 0x5555555555555555ULL & mask, 1};
+                    for (int bg = 0; bg < 2; bg++) {
+                        for (int vi = 0; vi < 3; vi++) {
+                            for (int mode = 0; mode < 2; mode++) { /* 0: library writes, we read; 1: we write, library reads */
+                                uint64_t v = vv[vi];
+                                uint8_t model[64];
+                                size_t wl = whi - wlo;
+                                memset(map + wlo, bg ? 0xff : 0x00, wl);
+                                memset(model, bg ? 0xff : 0x00, wl);
+                                /* model_set addresses bytes from the stream start: shift to the window */
+                                model_set(model - wlo, (int)W, off, w, v);
+                                snprintf(desc, sizeof desc, "%s words: offset 2^%d%+ld width %zu value 0x%" PRIx64 " prior %02x (%s)", I->name, EXPS[ei], DELTAS[di], w, v, bg ? 0xff : 0,
+                                         mode ? "Get of independently written bits" : "Set");
+                                uint64_t got = ~v;
+                                if (mode) {
+                                    memcpy(map + wlo, model, wl);
+                                }
+                                if (SB_ENTER()) {
+                                    if (!mode) {
+                                        I->set(map, off, w, v);
+                                    }
+                                    got = I->get(map, off, w);
+                                    SB_LEAVE();
+                                } else {
+                                    vh_fail("bitstream.Set/Get", vh_fault_name(), "untagged", "%s: %s", desc, vh_fault_msg);
+                                }
+                                vh_count("calls", mode ? 1 : 2);
+                                vh_count("cases", 1);
+                                if (memcmp(map + wlo, model, wl)) {
+                                    vh_fail("bitstream.Set", "bits_outside_range_changed", "untagged", "%s: the words at the addressed position differ from the model", desc);
+                                }
+                                if (got != v) {
+                                    vh_fail("bitstream.Get", "wrong_value", "untagged", "%s: Get returned 0x%" PRIx64, desc, got);
+                                }
+                                /* which pages of the whole stream were accessed? */
+                                if (mincore(map, maplen, vec) == 0) {
+                                    size_t plo = wlo / 4096, phi = (whi - 1) / 4096;
+                                    for (size_t pg = 0; pg < npages; pg++) {
+                                        if (!(vec[pg] & 1)) {
+                                            continue;
+                                        }
+                                        if (pg < plo || pg > phi) {
+                                            vh_fail("bitstream.Set/Get", "touches_foreign_word", "untagged", "%s: range lies in stream bytes %zu..%zu but the page at stream byte %zu was accessed", desc, wlo + WB,
+                                                    whi - WB - 1, pg * 4096);
+                                        }
+                                        madvise(map + pg * 4096, 4096, MADV_DONTNEED);
+                                    }
+                                    vh_count("page_scans", 1);
+                                } else {
+                                    vh_flag("far_offsets_mapped", 0);
+                                }
+                            }
+                        }
+                    }
+                    char ck[64];
+                    snprintf(ck, sizeof ck, "%s/far/2^%d/%s", I->name, EXPS[ei], firstw == lastw ? "one-word" : "two-words");
+                    vh_class(ck, "offset 2^%d%+ld width %zu", EXPS[ei], DELTAS[di], w);
+                }
+            }
+        }
+    }
+    free(vec);
+    munmap(map, maplen);
+}
 
 int main(int argc, char **argv) {
     vh_init(argc, argv);
@@ -146,6 +255,7 @@ int main(int argc, char **argv) {
             }
         }
     }
+    far_section();
     /* signed helpers */
     if (vh_section_begin("signed")) {
         for (size_t w = 2; w <= 64; w++) {
